@@ -80,7 +80,20 @@ func RunC10Values(c *core.Ctx) {
 	if !RoundTrip(c, v, true, "generated collection") {
 		return
 	}
-	cv, _ := Canon(v)
+	cv, mm := Canon(v)
+	// String() of the collection (through the notation cached in its class) must be the same text
+	if st, ok := v.(fmt.Stringer); ok {
+		var a, b string
+		if pan, msg := try(func() { a, b = st.String(), mod.FormatValue(v) }); pan {
+			c.Violation("string/panicked", "String() panicked: "+clip(msg, 200), map[string]any{"value": clip(cv, 800)})
+			return
+		}
+		if a != b && !(mm && sortedLines(a) == sortedLines(b)) {
+			c.Violation("string/differs-from-format", "String() and FormatValue disagree", map[string]any{"value": clip(cv, 800), "string": clip(a, 600), "format": clip(b, 600)})
+			return
+		}
+		c.Cover("string-equals-format")
+	}
 	c.Cover("values")
 	c.Distinct(core.HashStr(cv))
 	if len(cv) < 400 && c.WantSample("value") {
